@@ -7,7 +7,7 @@ import subprocess
 import tempfile
 import time
 
-SPEC_DIR = os.path.join(os.path.dirname(os.path.dirname(os.path.abspath(__file__))), "spec")
+SPEC_DIR = os.environ.get("VERIF_SPEC_DIR") or os.path.join(os.path.dirname(os.path.dirname(os.path.abspath(__file__))), "spec")
 JAR = "/opt/veriftools/tla/tla2tools.jar"
 
 
